@@ -119,6 +119,7 @@ MUTANTS = [
     ('h06', 'C01', 'harmless', 'skoolkit/snaskool.py', "                        length = sub_block.end - sub_block.start", "                        length = sub_block.end - address", None),
     ('h07', 'C13', 'harmless', 'skoolkit/loadtracer.py', "        while self.block_index < len(self.blocks) and self.block_data_index <= self.state[1] < self.max_index:", "        while self.block_data_index <= self.state[1] < self.max_index and self.block_index < len(self.blocks):", 'opcodes:00'),
     ('h08', 'C14', 'harmless', 'skoolkit/snactl.py', "                    if start <= address < end:\n                        addresses.add(address)", "                    if address >= start and address < end:\n                        addresses.add(address)", None),
+    ('h09', 'C09', 'harmless', 'skoolkit/snapshot.py', "    if page is None:\n        for a in range(addr1, addr2 + 1, step):\n            snapshot[a] = poke_f(snapshot[a])", "    if page is None:\n        for a in range(addr1, 1 + addr2, step):\n            old = snapshot[a]\n            snapshot[a] = poke_f(old)", None),
 ]
 
 
